@@ -306,6 +306,45 @@ def run(R, replay=None):
                                  "input": {"bandit_runs": runs}, "observed": {"exit": r["exit"], "stderr": r["stderr"][-300:]}, "signature": None})
         shutil.rmtree(repo, ignore_errors=True)
         shutil.rmtree(tmpd, ignore_errors=True)
+    # ---- the reader of the tool's output goes away while it runs (bandit-baseline ... | head -1)
+    for plan in (("real", "real"), ("1", "0")):
+        k += 1
+        repo = os.path.join(base, "q%d" % k)
+        cur, parent = make_repo(repo)
+        tmpd = os.path.join(base, "qt%d" % k)
+        os.makedirs(tmpd)
+        before = snapshot(repo)
+        state = os.path.join(shimdir, "state")
+        if os.path.exists(state):
+            os.remove(state)
+        env = dict(os.environ, PATH=shimdir + os.pathsep + os.environ.get("PATH", ""), SHIM_PLAN=",".join(plan), SHIM_STATE=state, TMPDIR=tmpd, PYTHONPATH=core.REPO)
+        for k_ in ("GIT_DIR", "GIT_WORK_TREE"):
+            env.pop(k_, None)
+        code = "import sys; sys.argv = ['bandit-baseline', 'a.py', 'b.py']; from bandit.cli import baseline as b; b.main()"
+        p_ = subprocess.Popen([core.PY, "-u", "-c", code], cwd=repo, env=env, stdout=subprocess.PIPE, stderr=subprocess.DEVNULL)
+        p_.stdout.readline()          # the first log line, then the reader closes its end
+        p_.stdout.close()
+        try:
+            rc = p_.wait(timeout=300)
+        except subprocess.TimeoutExpired:
+            p_.kill()
+            rc = "timeout"
+        after = snapshot(repo)
+        left = os.listdir(tmpd)
+        R.case(("closed-pipe", plan), sample={"bandit_runs": plan, "exit": rc, "head_restored": after["head"] == cur, "tmp_left": len(left)})
+        R.count("process")
+        problems = []
+        if after["head"] != cur or after["branch_sha"] != cur:
+            problems.append("HEAD/branch not restored")
+        if after["status"] != before["status"] or after["content"] != before["content"]:
+            problems.append("working tree changed: %r" % after["status"])
+        if left:
+            problems.append("temporary directory left behind")
+        if problems:
+            R.violations.append({"what": "the reader of bandit-baseline's output closed the pipe while it ran: " + "; ".join(problems),
+                                 "input": {"bandit_runs": plan, "stdout": "pipe closed after the first line"}, "observed": {"exit": rc}, "signature": None})
+        shutil.rmtree(repo, ignore_errors=True)
+        shutil.rmtree(tmpd, ignore_errors=True)
     # ---- refusals: nothing is reset, exit status 2
     pre = [("dirty", lambda d: open(os.path.join(d, "a.py"), "a").write("# x\n"), ["a.py"]),
            ("report-exists", lambda d: open(os.path.join(d, "bandit_baseline_result.json"), "w").write("{}"), ["a.py", "-f", "json"]),
@@ -349,30 +388,36 @@ def run(R, replay=None):
         git(d, "init", "-q", "-b", "work")
         open(os.path.join(d, "a.py"), "w").write("assert x\n")
         open(os.path.join(d, "old.py"), "w").write("import pickle\n")
+        os.makedirs(os.path.join(d, "legacy"))
+        open(os.path.join(d, "legacy", "mod.py"), "w").write("import marshal\n")
         git(d, "add", ".")
         git(d, "commit", "-q", "-m", "one")
-        git(d, "rm", "-q", "old.py")
+        git(d, "rm", "-q", "-r", "old.py", "legacy")
         open(os.path.join(d, "b.py"), "w").write("x = 1\n")
         git(d, "add", ".")
         git(d, "commit", "-q", "-m", "two")
     for name, fn, ignored in (("untracked-scratch-file", "scratch.txt", False), ("untracked-file-tracked-in-parent", "old.py", False),
-                              ("ignored-file", "notes.log", True), ("ignored-file-tracked-in-parent", "old.py", True)):
+                              ("ignored-file", "notes.log", True), ("ignored-file-tracked-in-parent", "old.py", True),
+                              ("untracked-directory-tracked-in-parent", "legacy/mod.py", False), ("untracked-directory", "scratchdir/x.txt", False)):
         k += 1
         repo = os.path.join(base, "u%d" % k)
         repo_with_removed_file(repo)
         if ignored:
             open(os.path.join(repo, ".git", "info", "exclude"), "a").write(fn + "\n")
+        os.makedirs(os.path.dirname(os.path.join(repo, fn)), exist_ok=True)
         open(os.path.join(repo, fn), "w").write("# not under version control: %s\n" % name)
         before = snapshot(repo)
+        before_file = open(os.path.join(repo, fn)).read()
         tmpd = os.path.join(base, "ut%d" % k)
         os.makedirs(tmpd)
         r = run_baseline(repo, ["a.py", "b.py"], ("real", "real"), ("ok", "ok", "ok"), tmpd, shimdir)
         after = snapshot(repo)
-        R.case(("untracked", name), sample={"scenario": name, "exit": r["exit"], "exception": r["exception"], "file_survives": after["content"].get(fn) == before["content"].get(fn)})
+        R.case(("untracked", name), sample={"scenario": name, "exit": r["exit"], "exception": r["exception"], "file_survives": os.path.exists(os.path.join(repo, fn))})
         R.count("untracked")
-        if after["content"].get(fn) != before["content"].get(fn) or after["head"] != before["head"] or after["status"] != before["status"]:
+        now_file = open(os.path.join(repo, fn)).read() if os.path.exists(os.path.join(repo, fn)) else None
+        if now_file != before_file or after["head"] != before["head"] or after["status"] != before["status"]:
             R.violations.append({"what": "a file git does not track (%s) is %s by bandit-baseline" % (
-                name, "deleted" if fn not in after["content"] else "changed"), "input": {"scenario": name, "file": fn},
+                name, "deleted" if now_file is None else "changed"), "input": {"scenario": name, "file": fn},
                 "observed": {"exit": r["exit"], "status_after": after["status"], "content_after": after["content"].get(fn)},
                 "signature": None})
         shutil.rmtree(repo, ignore_errors=True)
